@@ -194,11 +194,14 @@ def gen_boot_triangle(rng):
     fields = rng.sample(["paid_loss", "reported_loss", "earned_premium"], rng.randint(1, 3))
     rows = coords(rng, shape, P, L, res)
     cells = []
+    small_first = rng.random() < 0.35     # minimum of a series small relative to its steps
     for m in metas(rng, n_slices):
         for ps, pe, evs in rows:
             base = {f: rng.randint(50, 500) for f in fields}
             for j, e in enumerate(evs):
                 vals = {f: (base[f] * (j + 1) + rng.randint(0, 40) if f != "earned_premium" else base[f]) for f in fields}
+                if small_first and (j == 0 and len(evs) > 1 or len(evs) == 1 and (ps, pe, evs) == rows[0]):
+                    vals = {f: (rng.randint(1, 5) if f != "earned_premium" else v) for f, v in vals.items()}
                 if rng.random() < 0.1:
                     vals = {f: float(v) + 0.5 for f, v in vals.items()}
                 cells.append(CumulativeCell(period_start=ps, period_end=pe, evaluation_date=e, values=vals, metadata=m))
@@ -390,7 +393,7 @@ def boot_case(seed):
     n = rng.choice([1, 2, 3])
     s = rng.choice([0, 0, 1, 2**32 - 1, rng.randrange(10**6), rng.randrange(10**6), rng.randrange(10**6)])
     fsel = rng.choice([None, None, rng.choice(info["fields"]), rng.sample(info["fields"], rng.randint(1, len(info["fields"])))])
-    fails, terms = [], []
+    fails, terms, known = [], [], []
     info["seed"] = s
     with Recording() as rec:
         try:
@@ -481,11 +484,17 @@ def boot_case(seed):
                     outv = [c[f] for c in rc]
                     if len(outv) != len(src):
                         fails.append("maximum entropy: length changed")
-                    # "within the given limits" L = (0, max(source)): monitored, not decided (the mean-preserving
+                    # "within the given limits" L = (0, max(source)): an oracle: below 0 is a violation, above max is the known finding U1 (the mean-preserving
                     # shift of the algorithm can move a value past the limit)
                     info["me_series"] = info.get("me_series", 0) + 1
-                    if max(outv) > max(src) * (1 + 1e-12) or min(outv) < 0:
-                        info["me_outside_limits"] = info.get("me_outside_limits", 0) + 1
+                    lo_, hi_ = limits_verdict(outv, 0, max(src))
+                    if lo_:
+                        fails.append(f"replicate {i}: maximum-entropy series of {f} leaves the LOWER limit 0 "
+                                     f"(bootstrap passes L=(0, max)): min {min(outv)} for source {src}")
+                    if hi_:
+                        info["me_above_upper"] = info.get("me_above_upper", 0) + 1
+                        known.append(f"replicate {i}: maximum-entropy series of {f} exceeds the upper limit {max(src)}: "
+                                     f"max {max(outv)} for source {src}")
                     bad = [(p, q) for p in range(len(src)) for q in range(len(src)) if src[p] < src[q] and outv[p] > outv[q]]
                     if bad:
                         fails.append(f"replicate {i}: maximum-entropy output does not keep the rank order of {f}: {bad[:2]}")
@@ -513,7 +522,97 @@ def boot_case(seed):
     again = U.bootstrap(t, n, seed=s, field=fsel)
     if [canon(r) for r in again] != [canon(r) for r in reps]:
         fails.append(f"same seed ({s}) twice gave different replicates (n={n}, field={fsel!r})")
-    return {"coq": terms, "fails": fails, "info": info, "n_cells": len(t)}
+    return {"coq": terms, "fails": fails, "info": info, "n_cells": len(t), "known": known}
+
+
+U1 = {"kind": "max_entropy_exceeds_upper_limit"}
+
+
+def limits_verdict(out, lo, hi):
+    """(below lower limit, above upper limit) with a relative tolerance of 1e-9"""
+    below = lo is not None and min(out) < lo - 1e-9 * max(1.0, abs(lo))
+    above = hi is not None and max(out) > hi + 1e-9 * max(1.0, abs(hi))
+    return below, above
+
+
+def me_case(seed):
+    """maximum_entropy_ensemble called directly: explicit limits incl. (0, max), wider limits, None, one-sided"""
+    B = importlib.import_module("bermuda.utils.bootstrap")
+    rng = random.Random(seed)
+    n = rng.randint(2, 8)
+    style = rng.choice(["plain", "small_min", "small_min", "ties", "float", "unsorted"])
+    if style == "small_min":
+        x = sorted([rng.randint(1, 5)] + [rng.randint(300, 2000) for _ in range(n - 1)])
+    elif style == "ties":
+        x = sorted(rng.choice([10, 20, 20, 300, 300, 900]) for _ in range(n))
+    elif style == "float":
+        x = sorted(rng.randint(1, 4000) / 4 for _ in range(n))
+    else:
+        x = [rng.randint(1, 3000) for _ in range(n)]
+        if style == "plain":
+            x.sort()
+    if rng.random() < 0.5:
+        rng.shuffle(x)
+    mn, mx = min(x), max(x)
+    L = rng.choice([(0, mx), (0, mx), (0, mx), (mn, mx), (mn - rng.randint(0, 50), mx + rng.randint(0, 50)),
+                    (-rng.randint(1, 100), mx), None, (None, mx), (0, None)])
+    U = [float(u) for u in np.random.default_rng(rng.randrange(10**6)).uniform(size=n)]
+    info = {"shape": style, "L": L, "n": n, "x": x}
+    fails, known = [], []
+    try:
+        out, exc = B.maximum_entropy_ensemble(list(x), list(U), L=L), None
+    except Exception as ex:  # noqa: BLE001
+        out, exc = None, ex
+    info["outcome"] = "raised:" + type(exc).__name__ if exc else "returned"
+    one_sided = L is not None and (L[0] is None or L[1] is None)
+    if exc is not None:
+        if not one_sided:
+            fails.append(f"maximum_entropy_ensemble raised {exc!r} for x={x}, L={L}")
+        return {"coq": None, "fails": fails, "known": known, "info": info, "n_cells": n}
+    out = [float(v) for v in out]
+    if len(out) != len(x):
+        fails.append(f"length {len(out)} != {len(x)}")
+    bad = [(p, q) for p in range(len(x)) for q in range(len(x)) if x[p] < x[q] and out[p] > out[q]]
+    if bad:
+        fails.append(f"rank order of the source not kept: positions {bad[:3]} for x={x}")
+    if L is not None and len(set(x)) > 1:
+        lo_, hi_ = limits_verdict(out, L[0], L[1])
+        if lo_:
+            fails.append(f"value {min(out)} below the given lower limit {L[0]} for x={x}, U={U}, L={L}")
+        if hi_:
+            known.append(f"value {max(out)} above the given upper limit {L[1]} for x={x}, U={U}, L={L}")
+    try:
+        term = f"rank_order_b {zs([r1024(v) for v in x])} {zs([r1024(v) for v in out])}"
+    except C.NotRepresentable:
+        term = None
+    return {"coq": term, "fails": fails, "known": known, "info": info, "n_cells": n}
+
+
+def probe_limits(ctx):
+    """Directed inputs: (a) the listed known finding U1 -- upper limit exceeded; (b) the lower limit 0 that
+    bootstrap() always passes, on a series whose minimum is small relative to its steps."""
+    B = importlib.import_module("bermuda.utils.bootstrap")
+    x, U, L = [2880, 2927], [0.7597757602951974, 0.49177012269810716], (0, 2927)
+    out = [float(v) for v in B.maximum_entropy_ensemble(list(x), list(U), L=L)]
+    hit = False
+    if limits_verdict(out, *L)[1]:
+        ctx.violation("impl-violation", f"maximum_entropy_ensemble({x}, U, L={L}) = {out}: above the upper limit",
+                      {"mode": "probe_limits", "x": x, "U": U, "L": list(L), "out": out}, found_input=True, finding_class=U1)
+        hit = True
+    if limits_verdict(out, *L)[0]:
+        ctx.violation("impl-violation", f"maximum_entropy_ensemble({x}, U, L={L}) = {out}: below the lower limit",
+                      {"mode": "probe_limits", "x": x, "U": U, "L": list(L), "out": out}, found_input=True)
+        hit = True
+    x = [3, 420, 910, 1480, 1790, 1900]
+    for sd in range(12):
+        U = [float(u) for u in np.random.default_rng(sd).uniform(size=len(x))]
+        out = [float(v) for v in B.maximum_entropy_ensemble(list(x), list(U), L=(0, max(x)))]
+        if limits_verdict(out, 0, None)[0]:
+            ctx.violation("impl-violation",
+                          f"maximum_entropy_ensemble({x}, U(seed {sd}), L=(0, {max(x)})) goes below the lower limit 0: min {min(out)}",
+                          {"mode": "probe_limits", "x": x, "U": U, "L": [0, max(x)], "out": out}, found_input=True)
+            return True
+    return hit
 
 
 def probe_field_subset(ctx):
@@ -642,7 +741,8 @@ def run(ctx):
     ctx.assumptions += [
         "PARTIAL: RNG and samplers are oracles; structure theorems hold for every oracle value",
         "NOT decided by proof (numerical / monitor only): seed determinism, distinctness of choice(replace=False), "
-        "'within the given limits' of the maximum-entropy ensemble, mean/variance scale of moment_match "
+        "'within the given limits' of the maximum-entropy ensemble (ORACLE on every maximum-entropy case: below the lower "
+        "limit = violation, above the upper limit = known finding U1), mean/variance scale of moment_match "
         "(checked on the sampler PARAMETERS with tolerance 1e-9/1e-7), len(sampler output) = len(samples)",
         "bootstrap value chain is compared in floating point (1e-9) against the recorded factors; inside coqc only the "
         "shape (coordinates, slices, field names, None-vs-number) and the unchanged first cells are compared exactly",
@@ -654,10 +754,12 @@ def run(ctx):
         coqchk(ctx)
     rng = random.Random(ctx.seed * 15485863 + 17)
     mult = 1 if ctx.quick else 8
-    plan = [("thin", thin_case, 260 * mult), ("bootstrap", boot_case, 160 * mult), ("moment_match", mm_case, 160 * mult)]
+    plan = [("thin", thin_case, 260 * mult), ("bootstrap", boot_case, 160 * mult), ("moment_match", mm_case, 160 * mult),
+            ("max_entropy", me_case, 300 * mult)]
     terms = []   # (kind, seed, term)
-    nfail, nknown = 0, 0
+    nfail, nknown, nu1 = 0, 0, 0
     probe_field_subset(ctx)
+    probe_limits(ctx)
     for kind, fn, count in plan:
         for _ in range(count):
             seed = rng.randrange(2**31)
@@ -676,10 +778,18 @@ def run(ctx):
                 for m in info.get("methods", []):
                     ctx.hist(f"bootstrap:method={m}")
                 ctx.hist("bootstrap:max-entropy series", info.get("me_series", 0))
-                ctx.hist("bootstrap:max-entropy series leaving the limits (0, max) [monitor only]", info.get("me_outside_limits", 0))
+                ctx.hist("bootstrap:max-entropy series above the upper limit (known finding U1)", info.get("me_above_upper", 0))
             if out["n_cells"] >= 2 or info.get("outcome") != "returned":
                 ctx.nontriv((kind, seed))
             ctx.count(evaluations=1)
+            if kind == "max_entropy":
+                ctx.hist(f"max_entropy:L={'None' if info['L'] is None else 'one-sided' if None in info['L'] else 'two-sided'}")
+            for msg in out.get("known", [])[:1]:          # the listed finding U1: upper limit exceeded
+                nu1 += 1
+                if nu1 <= 2:
+                    ctx.violation("impl-violation", f"{kind}: {msg}",
+                                  {"mode": kind, "seed": seed, "known": out["known"][:3], "info": {k: str(v) for k, v in info.items()}},
+                                  found_input=True, finding_class=U1)
             if out["fails"]:
                 nfail += 1
                 cls = out.get("class")
@@ -698,6 +808,7 @@ def run(ctx):
     ctx.obligation("direct oracles (structure, same positions, first cell, rank order, seed twice, sampler parameters)",
                    nfail == 0, f"{nfail} failing cases")
     ctx.extra["oracle_failures_in_known_finding_class"] = nknown
+    ctx.extra["cases_above_upper_limit_known_finding_U1"] = nu1
     for f in ctx.build.glob("cases_*.v*"):
         f.unlink()
     files = []
@@ -748,7 +859,13 @@ def replay(ctx, data):
             def violation(self, *a, **k):
                 print("FAIL:", a[1])
         return 1 if probe_field_subset(_C()) else 0
-    fn = {"thin": thin_case, "bootstrap": boot_case, "moment_match": mm_case}.get(data.get("mode"))
+    if data.get("mode") == "probe_limits":
+        B = importlib.import_module("bermuda.utils.bootstrap")
+        out = [float(v) for v in B.maximum_entropy_ensemble(list(data["x"]), list(data["U"]), L=tuple(data["L"]))]
+        lo_, hi_ = limits_verdict(out, data["L"][0], data["L"][1])
+        print("output", out, "below lower:", lo_, "above upper:", hi_)
+        return 1 if (lo_ or hi_) else 0
+    fn = {"thin": thin_case, "bootstrap": boot_case, "moment_match": mm_case, "max_entropy": me_case}.get(data.get("mode"))
     if fn is None:
         print("replay data:", data)
         return 1
@@ -758,4 +875,6 @@ def replay(ctx, data):
     print(out["info"])
     for f in out["fails"]:
         print("FAIL:", f)
-    return 1 if out["fails"] else 0
+    for f in out.get("known", []):
+        print("KNOWN-CLASS (U1):", f)
+    return 1 if out["fails"] or out.get("known") else 0
